@@ -95,14 +95,19 @@ def slate_term(canon):
 
 def v4_term(r):
     im = r["impl"]
+    canon = [int(x) for x in r["case"]["v4"]]
     kern = im["kernel"] if isinstance(im["kernel"], list) else []
+
+    def same_or(v, nums):
+        # "[]" stands for "equal to the slate itself" (keeps the generated Coq files small)
+        return "[]" if v == canon else pack_nums(nums)
     return "(%s, %s, %s, %s, %s, %s, %s)" % (
-        slate_term(r["case"]["v4"]),
+        slate_term(canon),
         chunks(im["bin"]) if isinstance(im["bin"], str) else "[]",
-        pack_nums(res_nums(im["bin_dec"])),
+        same_or(im["bin_dec"], res_nums(im["bin_dec"])),
         pack_nums(im["json_fields"] or []),
-        pack_nums(res_nums(im["json_dec"])),
-        pack_nums(im["conv"] if isinstance(im["conv"], list) else [9]),
+        same_or(im["json_dec"], res_nums(im["json_dec"])),
+        same_or(im["conv"], im["conv"] if isinstance(im["conv"], list) else [9]),
         pack_nums(kern))
 
 
